@@ -21,8 +21,8 @@ IMPORTS = "From DJC Require Import Lib.Base TagParse.Model TagParse.Resolve."
 T_DENOTE = "c02-denotation"
 T_LAYOUT = "c02-layout-dependence"
 T_INVALID = "c02-invalid-combination-accepted"
-T_SPREAD_FILTER = "c02-spread-with-filter"          # `...var|filter` is passed as ONE positional value instead of being spread
-T_FLAG_VALUE = "c02-flag-name-as-keyword-value"     # `key=only` (value text equal to a flag name) drops the kwarg and sets the flag
+T_SPREAD_FILTER = "c02-spread-with-filter"          # fixed 3b4a681: `...var|filter` was passed as ONE positional value instead of being spread
+T_FLAG_VALUE = "c02-flag-name-as-keyword-value"     # fixed 2de8cc8: `key=only` (value text equal to a flag name) dropped the kwarg and set the flag
 
 CTX = {"i": 5, "s": "str", "l": [1, 2, 3], "d": {"a": 1, "b": 2}, "n": None, "t": True, "o": {"k": "v w", "z": [7, 8]},
        "e": [], "q": "it's \"q\"", "only": "ONLY", "required": 9}
@@ -231,8 +231,10 @@ def gen_arglist(rng, flags):
 class Denoter:
     def __init__(self, ctx):
         from django.template import Context
+        from django.template import Template
         self.parser = django_parser()
         self.ctx = Context(dict(ctx))
+        self.ctx.template = Template("")
 
     def leaf(self, lf):
         from django.template import Template
@@ -369,7 +371,7 @@ class Printer:
 INVALID = [  # documented as invalid -> TemplateSyntaxError, never re-interpreted
     "k=...d", "a=[...l]", "a={...d}", "a=[**d]", "a={*l}", "a={'k': **d}", "a={**d: 1}", "a=l|...d", "a=s|*l", "a={'k': ...d}",
     "a=[1, 2", "a={'k': 1", "a={'k'}", "a={'k': 1, 'j'}", "a={[1]: 2}", "a={{'x': 1}: 2}", "a=[1]]", "a=1,", "a=|upper", "a=s|:x",
-    "...", "... d", "a={'k':: 1}", "a={:1}", "a=_('x", "only only", "...only",
+    "...", "... d", "a={'k':: 1}", "a={:1}", "a=_('x", "only only",
 ]
 
 EXPLORE = [  # outside the statement / undocumented: reported in the evidence, never an alarm
@@ -415,7 +417,9 @@ def build_env(text, ctx, oth):
     except Exception:  # noqa
         return []
     env, todo = {}, [a.value for a in attrs]
+    from django.template import Template
     c = Context(dict(ctx))
+    c.template = Template("")           # FilterExpression.resolve reads context.template.engine.string_if_invalid
     while todo:
         n = todo.pop()
         if isinstance(n, TagValue):
@@ -425,9 +429,9 @@ def build_env(text, ctx, oth):
             if s not in env:
                 try:
                     n.compile(parser)
-                    env[s] = value_term(n.resolve(c), oth)
+                    env[s] = "(Some %s)" % value_term(n.resolve(c), oth)
                 except Exception:  # noqa
-                    pass
+                    env[s] = "None"
         else:
             todo.extend(n.entries)
     return ["(%s, %s)" % (cstr(k), v) for k, v in env.items()]
@@ -506,7 +510,10 @@ def run(tier, seed):
     try:
         den = Denoter(CTX)
         # ---- 0. corpus ----
-        for c in CORPUS:
+        import glob
+        import os
+        corpus = list(CORPUS) + [json.load(open(f)) for f in sorted(glob.glob(os.path.join(C.VERIF, "corpus", "C02", "*.json")))]
+        for c in corpus:
             for kind in ("component", "probe"):
                 res = pr.run(sources(kind, c["body"] + " /", True), CTX)
                 chk.count(("corpus", kind, c["body"]), True, kind="corpus")
@@ -571,6 +578,8 @@ def run(tier, seed):
         for _ in range(6000 if thorough else 700):
             al = gen_arglist(rng, ["required", "only"])
             body = U.mutate(rng, Printer(rng).arglist(al), n=rng.randint(1, 2))
+            if "%}" in body:      # a mutated quote may let `%}` end the tag early; what follows is then template text, not a tag argument
+                continue
             res = pr.run(sources("probe", body, True), CTX)
             chk.count(("mutation", body), True, kind="mutation-" + ("ok" if res[0] == "ok" else res[1]))
             if res[0] == "err" and res[1] not in ("TemplateSyntaxError", "TypeError", "ValueError", "SyntaxError", "VariableDoesNotExist", "KeyError", "AttributeError"):
@@ -579,17 +588,21 @@ def run(tier, seed):
     finally:
         pr.uninstall()
     kw = clist([cstr(k) for k in keyword.kwlist])
+    # not observable: flags at get_context_data (component), the self-closing slash at the probe (no end tag) - the
+    # model's own value is let through there
     extra = ("Definition kws : list str := %s.\n"
              "Definition chk (c : rcase) : bool :=\n"
-             "  match rc_out c with\n"
-             "  | RGot a k [] cl => match run_tag kws (rc_tag c) (rc_allowed c) (rc_env c) (rc_text c) with\n"
-             "                      | ROk (a', k', f', cl') => check_run kws (mkrcase (rc_tag c) (rc_allowed c) (rc_env c) (rc_text c) (RGot a k (if str_eqb (rc_tag c) %s then f' else []) cl))\n"
-             "                      | _ => check_run kws c end\n"
-             "  | _ => check_run kws c end.\n" % (kw, cstr("component")))
+             "  let comp := str_eqb (rc_tag c) %s in\n"
+             "  match rc_out c, run_tag kws (rc_tag c) (rc_allowed c) (rc_env c) (rc_text c) with\n"
+             "  | RGot a k f cl, ROk (_, _, f', cl') =>\n"
+             "      check_run kws (mkrcase (rc_tag c) (rc_allowed c) (rc_env c) (rc_text c) (RGot a k (if comp then f' else f) (if comp then cl else cl')))\n"
+             "  | _, _ => check_run kws c end.\n" % (kw, cstr("component")))
     bad = C.coq_eval_cases("C02", "run", IMPORTS, "rcase", "chk", terms, shard=400, timeout=1200, extra_defs=extra)
     for i in bad[:20]:
         chk.disagree("run_tag model != implementation (args / kwargs / flags / exception class)", cases[i])
     chk.extra["layout_failures"] = n_fail_lay
+    chk.extra["disagreement_examples"] = [cases[i] for i in bad[:12]]
+    chk.extra["disagreement_terms"] = [terms[i] for i in bad[:3]]
     chk.assumptions = [
         "leaf evaluation (variables, literals, filters, _() strings, nested template strings) is Django's FilterExpression / Template - trusted, not modelled",
         "receivers take var-positional and var-keyword parameters (signature validation belongs to C11)",
